@@ -1370,10 +1370,14 @@ func (p *Prog) allowedFunc(fn *ssa.Function, allowed func(f *ssa.Function) bool,
 	if depth > 3 {
 		return false
 	}
-	// a closure inside an unknown helper acts for the helper
+	// a closure acts for the function it is written in (its position among the
+	// parent's closures is not part of any rule)
 	outer := fn
 	for outer.Parent() != nil {
 		outer = outer.Parent()
+	}
+	if outer != fn && allowed(outer) {
+		return true
 	}
 	ds := p.Delegators(outer)
 	if len(ds) == 0 {
